@@ -56,6 +56,7 @@ def run(ctx):
                 ctx.violation("bit-encoding gadget disagrees with ReducedCheck.tla: %s: %s" % (x["id"], x.get("detail")), dict(kind="c06", cases=x.get("case")))
     if n != total:
         raise Infra("harness returned %d results for %d cases" % (n, total))
+    structural_leg(ctx)
     ctx.samples += [dict(p=c["p"], n=c["n"], bits="".join(map(str, c["bits"]))[:80], accept=c["accept"], cmp=c["cmp"]) for c in (batches[0][0][:2] + batches[1][0][:2])]
     ctx.traces_validated = n
     ctx.evaluations = n
@@ -73,3 +74,79 @@ def replay(ctx, path):
     for x in bad:
         print("REPRODUCED:", json.dumps(x)[:600])
     return 1 if bad else 0
+
+
+# ---------------------------------------------------------------------------------------------------------------------------
+# structural leg: the extracted gate list of ReducedModRCheck_256 (fresh extraction and committed Lean model) is a trace of Define
+
+def parse_gates(src, name):
+    """gate list of `def <name>` in an extracted Lean file -> list of dict(op, args, out)"""
+    import re as _re
+    m = _re.search(r"^def %s .*?:=\n(.*?)\n\n" % _re.escape(name), src, _re.S | _re.M)
+    if not m:
+        return None
+    gates = []
+    clean = lambda a: {"(0:F)": "0", "(1:F)": "1"}.get(a, a)
+    for line in m.group(1).splitlines():
+        line = line.strip().rstrip("∧").strip()
+        if line in ("True", ""):
+            continue
+        mm = _re.match(r"∃(gate_\d+), \1 = Gates\.(\w+) (.*)$", line)
+        if mm:
+            gates.append(dict(op=mm.group(2), args=[clean(a) for a in mm.group(3).split()], out=mm.group(1)))
+            continue
+        mm = _re.match(r"∃(gate_\d+), Gates\.(\w+) (.*) \1$", line)
+        if mm:
+            gates.append(dict(op=mm.group(2), args=[clean(a) for a in mm.group(3).split()], out=mm.group(1)))
+            continue
+        mm = _re.match(r"Gates\.(\w+) (.*)$", line)
+        if mm:
+            gates.append(dict(op=mm.group(1), args=[clean(a) for a in mm.group(2).split()], out=""))
+            continue
+        gates.append(dict(op="unparsed", args=[line[:80]], out=""))
+    return gates
+
+
+def emission(src, name, var):
+    import re as _re
+    m = _re.search(r"^def %s .*?:=\n(.*?)\n\n" % _re.escape(name), src, _re.S | _re.M)
+    if not m:
+        return None
+    v = _re.search(r"vec!\[(.*)\]", m.group(1))
+    if not v:
+        return None
+    idx = [int(x) for x in _re.findall(r"%s\[(\d+)\]" % _re.escape(var), v.group(1))]
+    return [dict(op="emit", k=k, idx=i, n=len(idx), args=[], out="") for k, i in enumerate(idx)]
+
+
+def structural_leg(ctx):
+    import os, re as _re
+    from vlib import REPO
+    keep = os.path.join(ctx.scratch, "extracted-c06.lean")
+    rec = ctx.run_vh(["art-extract"], dict(depth=3, batch=2, cli="", dir=ctx.scratch, keep=keep, prev=""))
+    sources = {"fresh extraction of the current Go gadgets": open(keep).read() if os.path.exists(keep) else "",
+               "committed Lean model": open(os.path.join(REPO, "formal-verification", "FormalVerification.lean")).read()}
+    out = {}
+    for label, src in sources.items():
+        gates = parse_gates(src, "ReducedModRCheck_256")
+        em = emission(src, "ToReducedBigEndian_256", "gate_0")
+        if gates is None or em is None:
+            out[label] = "definition not found"
+            continue
+        tf = os.path.join(ctx.scratch, "gates-%d.ndjson" % len(out))
+        with open(tf, "w") as fh:
+            for g in gates + em:
+                g.setdefault("k", 0); g.setdefault("idx", 0); g.setdefault("n", 0)
+                fh.write(json.dumps(g) + "\n")
+        c = "SPECIFICATION Spec\nCONSTANTS N = 256\nCONSTRAINT HighWater\nPOSTCONDITION TraceAccepted\nCHECK_DEADLOCK FALSE\n"
+        r = ctx.tlc("GateTrace", c, workers=1, dfs=True, env_extra={"TRACE_FILE": tf}, label="GateTrace ReducedModRCheck_256 (%s)" % label, allow_violation=True, timeout=600)
+        m = _re.search(r'<<"HWM", (\d+), (\d+)>>', r["out"])
+        if not m:
+            raise Infra("GateTrace gave no high-water mark:\n" + "\n".join(r["out"].splitlines()[-20:]))
+        hwm, total = int(m.group(1)), int(m.group(2))
+        out[label] = "accepted: %d gates + %d emitted positions follow the ScanBit machine" % (len(gates), len(em)) if hwm == total + 1 else \
+            "NOT this machine any more (first unexplained gate #%d: %s) — behavioural legs decide" % (hwm, json.dumps((gates + em)[hwm - 1])[:160])
+        if hwm == total + 1:
+            ctx.states += r["distinct"]
+            ctx.transitions += r["generated"]
+    ctx.cov["structural_gate_trace"] = out
